@@ -69,6 +69,8 @@ Blame ==
   @@ "oe.ready.from_registry" :> {"C08"} @@ "oe.ready.setup" :> {"C08"} @@ "oe.ready.register" :> {"C08"}
   @@ "oe.ready.replace" :> {"C08"} @@ "oe.ready.unregister" :> {"C08"} @@ "oe.ready.already_running" :> {"C08"}
   @@ "oe.done"    :> {"C08", "C14"}
+  @@ "oe.res.register.entryfailed" :> {"C08", "C06"} @@ "oe.res.from_registry.entryfailed" :> {"C08", "C06"} @@ "oe.res.setup.entryfailed" :> {"C08", "C06"}
+  @@ "oe.res.replace.entryfailed" :> {"C08", "C06"} @@ "oe.res.unregister.entryfailed" :> {"C08", "C06"}
   @@ "dn.miss"    :> {"C08", "C14"} @@ "dn.type" :> {"C08"} @@ "dn.lock" :> {"C08"}
   @@ "blk.reglock" :> {"C08"} @@ "blk.regping" :> {"C08"}
   @@ "oe.res.send" :> {"C12", "C02"}
